@@ -6,7 +6,7 @@ from .c10 import is_done
 from .conn import leaves, ret_kind
 from .fields import field_writers
 from .srv import S, CC, calls
-from .util import const_of, is_call, last_seg, look, norm, truth, option_is_some
+from .util import const_of, is_call, last_seg, look, norm, truth, option_is_some, payload_of
 
 EXPLANATION = (
     "Static decision of the premises of the routing invariant id = map key = descriptor: every epoll "
@@ -60,6 +60,22 @@ def ids(ctx):
         gm = [s for s in subterms(recv) if isinstance(s, tuple) and is_call(s, "get_mut")]
         ok_conn = bool(gm) and srv.is_event_field(gm[0][2][1], ev, "fd") and is_connections(gm[0][2][0])
         ctx.ob("R07.1", "read|on-connection-of-event-fd", ok_conn, "read() is applied to connections[e.fd()]", fn.loc(rd[0][1]))
+        # written as a loop: for request in read()? { out.push(ServerRequest::new(request, e.data())) }
+        for w in calls(lf, "server::ServerRequest::new"):
+            n += 1
+            req, ident = look(w[4][2][0]), look(w[4][2][1])
+            id_ok = srv.is_event_field(ident, ev, "data")
+            src = payload_of(req)
+            it = None
+            if src is not None and is_call(src, "next"):
+                it = look(src[2][0])
+                while it[0] == "mut":
+                    it = look(it[1])
+                if is_call(it, "into_iter"):
+                    it = look(it[2][0])
+            src_ok = it is not None and payload_of(it) is not None and norm(payload_of(it)) == norm(rd[0][4])
+            ctx.ob("R07.1", "wrap|id-is-event-data", id_ok, "ServerRequest::new(request, e.data()) with e the event being handled", fn.loc(w[1]))
+            ctx.ob("R07.1", "wrap|over-requests-just-read", src_ok, "each wrapped request is an item of the vector read() just returned for that event", fn.loc(w[1]))
         # the closure mapping requests to ServerRequest captures this very event
         maps = [e for e in lf.events if e[0] == "call" and last_seg(e[3]) == "map" and "Iterator" in e[3]]
         for m in maps:
@@ -89,8 +105,12 @@ def ids(ctx):
             if rv["k"] == "aggregate" and rv.get("agg") == "adt" and rv["adt"] == "server::ServerRequest":
                 sites.add(f.name)
     ctx.ob("R07.1", "ServerRequest|constructed-in-new-only", sites == {"server::ServerRequest::new"}, "ServerRequest literals: %s" % sorted(sites))
+    from .util import roots_of
     callers = {f.name for f in facts.fns.values() if list(f.calls_to("server::ServerRequest::new"))}
-    ctx.ob("R07.1", "ServerRequest::new|callers", all(c.startswith(srv.REQUESTS) for c in callers), "ServerRequest::new is called from %s" % sorted(callers))
+    roots = set()
+    for c in callers:
+        roots |= roots_of(facts, c) or {c}
+    ctx.ob("R07.1", "ServerRequest::new|callers", all(c.startswith(srv.REQUESTS) for c in roots), "ServerRequest::new is called from %s (on behalf of %s)" % (sorted(callers), sorted(roots)))
 
 
 def strip_some(t):
@@ -168,9 +188,9 @@ def counter(ctx):
         ok = len(a) == 1
         if ok:
             v = look(a[0][4])
-            ok = v[0] == "payload" and is_call(v[1], "ok_or") and is_call(look(v[1][2][0]), "checked_add")
+            ok = payload_of(v) is not None and is_call(payload_of(v), "checked_add")
             if ok:
-                ca = look(v[1][2][0])
+                ca = payload_of(v)
                 x, y = look(ca[2][0]), look(ca[2][1])
                 okx = x[0] == "field" and x[3] == "in_flight_response_count"
                 oky = y[0] == "cast" and is_call(look(y[1]), "len") and same_vec(look(look(y[1])[2][0]), ret)
@@ -182,7 +202,7 @@ def counter(ctx):
         a = [e for e in lf.events if e[0] == "assign" and e[3] == "(*_1).in_flight_response_count"]
         for e in a:
             v = look(e[4])
-            good = v[0] == "payload" and is_call(v[1], "ok_or") and is_call(look(v[1][2][0]), "checked_add")
+            good = payload_of(v) is not None and is_call(payload_of(v), "checked_add")
             if lf.kind == "loop" or not good:
                 ctx.fail("R07.6", "read|stray-counter-write|%s" % lf.kind, "read() changes the in-flight counter other than by adding the number of requests it returns (%s path): %s" % (lf.kind, term_s(v)[:120]), fn.loc(e[1]))
     fe, le = leaves(ctx, CC + "enqueue_response")
@@ -196,7 +216,8 @@ def counter(ctx):
         ok = len(a) == 1
         if ok:
             v = look(a[0][4])
-            ok = v[0] == "payload" and is_call(v[1], "ok_or") and is_call(look(v[1][2][0]), "checked_sub") and const_of(look(v[1][2][0])[2][1]) == 1
+            cs = payload_of(v)
+            ok = cs is not None and is_call(cs, "checked_sub") and const_of(cs[2][1]) == 1 and look(cs[2][0])[0] == "field" and look(cs[2][0])[3] == "in_flight_response_count"
         ctx.ob("R07.6", "enqueue|counter-minus-one", ok, "every Ok path of enqueue_response decrements in_flight by exactly 1", fe.loc(lf.bb))
     ctx.ob("R07.6", "enqueue|floor", m >= 1, "%d Ok path(s) of enqueue_response inspected (floor 1)" % m)
     for w in field_writers(facts, srv.CCT, "in_flight_response_count"):
